@@ -172,7 +172,7 @@ func vpH_c01_tamper() {
 
 	kind := vpInt(0, 23)
 	if vpParam("matrix") != 0 {
-		kind = vpInt(24, 27)
+		kind = vpInt(24, 30)
 	}
 	switch kind {
 	case 0: // untouched
@@ -255,6 +255,15 @@ func vpH_c01_tamper() {
 	case 27: // an adjustment's skip flag flipped
 		pres.Matrix = vpDecoyed(vpMixedMatrix("l", "u"), decoy)
 		pres.Matrix.Adjustments[0].Skip = false
+	case 28: // an adjustment added that repeats an earlier tuple (the list is a list: every entry is signed)
+		pres.Matrix = vpDecoyed(vpMixedMatrix("l", "u"), decoy)
+		pres.Matrix.Adjustments = append(pres.Matrix.Adjustments, &pipeline.MatrixAdjustment{With: pipeline.MatrixAdjustmentWith{"": "a", "os": "w"}, Skip: false})
+	case 29: // ... with other settings
+		pres.Matrix = vpDecoyed(vpMixedMatrix("l", "u"), decoy)
+		pres.Matrix.Adjustments = append(pres.Matrix.Adjustments, &pipeline.MatrixAdjustment{With: pipeline.MatrixAdjustmentWith{"": "a", "os": "w"}, RemainingFields: map[string]any{"soft_fail": true}})
+	case 30: // the adjustments reordered
+		pres.Matrix = vpDecoyed(vpMixedMatrix("l", "u"), decoy)
+		pres.Matrix.Adjustments = pipeline.MatrixAdjustments{{With: pipeline.MatrixAdjustmentWith{"": "b", "os": "w"}}, pres.Matrix.Adjustments[0]}
 	}
 	verr := Verify(ctx, rec, ks, &CommandStepWithInvariants{CommandStep: *pres, RepositoryURL: presRepo}, vpCallOpts(venv, shape)...)
 	if kind == 0 {
